@@ -15,14 +15,25 @@ type eventUnsub struct {
 	pid *PID
 }
 
+// subKey identifies a subscriber by the address and id of its PID, so that an
+// equal PID held in a different struct names the same subscription.
+type subKey struct {
+	address string
+	id      string
+}
+
+func newSubKey(pid *PID) subKey {
+	return subKey{address: pid.GetAddress(), id: pid.GetID()}
+}
+
 type eventStream struct {
-	subs map[*PID]bool
+	subs map[subKey]*PID
 }
 
 func newEventStream() Producer {
 	return func() Receiver {
 		return &eventStream{
-			subs: make(map[*PID]bool),
+			subs: make(map[subKey]*PID),
 		}
 	}
 }
@@ -33,9 +44,9 @@ func newEventStream() Producer {
 func (e *eventStream) Receive(c *Context) {
 	switch msg := c.Message().(type) {
 	case eventSub:
-		e.subs[msg.pid] = true
+		e.subs[newSubKey(msg.pid)] = msg.pid
 	case eventUnsub:
-		delete(e.subs, msg.pid)
+		delete(e.subs, newSubKey(msg.pid))
 	default:
 		// check if we should log the event, if so, log it with the relevant level, message and attributes
 		logMsg, ok := c.Message().(EventLogger)
@@ -43,7 +54,7 @@ func (e *eventStream) Receive(c *Context) {
 			level, msg, attr := logMsg.Log()
 			slog.Log(context.Background(), level, msg, attr...)
 		}
-		for sub := range e.subs {
+		for _, sub := range e.subs {
 			c.Forward(sub)
 		}
 	}
